@@ -32,9 +32,10 @@ RULE = ("generated: every in-fragment precondition / effect program of the bound
         "token tree and whose behaviour table is not constant")
 ASSUMPTIONS = ["a program whose first parse raises is C01's business and is skipped",
                "differential oracle: evaluator defects are shared by both sides and stay C02/C03's business",
-               "constants of the alphabet are representable at the exporter's 4 decimals"]
+               "constants are placed only where they are representable at the exporter's precision: 2 decimals in conditions (DEFAULT_DECIMAL_DIGITS), 4 in effects (DEFAULT_DIGITS)"]
 CASE_TIMEOUT = 180
 CONSTS = ["0", "1", "-2", "0.5", "0.25", "1.75", "0.125", "0.0001", "12345.678"]
+CONSTS_2 = ["0", "1", "-2", "0.5", "0.25", "1.75", "12345.67"]
 
 
 def shipped_domains():
@@ -66,8 +67,14 @@ def cases(tier):
             c["orders"] = 1 if tier == "quick" else 2
             yield c
     for k in CONSTS:
-        for pre, eff in ((f"(and (>= (g ?x) {k}))", "(and (r))"), ("(and)", f"(and (increase (f) {k}))"),
-                         (f"(and (< (* (f) {k}) (g ?y)))", f"(and (assign (g ?x) (+ (g ?y) {k})))")):
+        # conditions (preconditions, when-conditions) are printed at 2 decimals, effects at 4: a constant is only put
+        # where it is representable at the exporter's precision for that place
+        kc = k if k in CONSTS_2 else CONSTS_2[CONSTS.index(k) % len(CONSTS_2)]
+        for pre, eff in ((f"(and (>= (g ?x) {kc}))", "(and (r))"), ("(and)", f"(and (increase (f) {k}))"),
+                         (f"(and (< (* (f) {kc}) (g ?y)))", f"(and (assign (g ?x) (+ (g ?y) {k})))"),
+                         ("(and)", f"(and (when (r) (increase (f) {k})))"),
+                         ("(and)", f"(and (forall (?z - t1) (when (p ?z) (assign (g ?z) {k}))))"),
+                         (f"(and (or (r) (>= (f) {kc})))", f"(and (when (< (g ?x) {kc}) (decrease (f) {k})))")):
             c = vdom.program("xy", pre, eff, ["const"])
             c["kind"] = "generated"
             c["max_states"] = 16
